@@ -31,6 +31,7 @@ def run(ctx, vfiles, props, hermitian=True, classify=None, extra=None, ncases=No
         ctx.oracle("o_main_3params", o_main.sweep, 160, props, kw_for(ctx, hermitian, N=3, max_blocks=3, max_params=3))
     else:
         ctx.oracle("o_main_3params", o_main.sweep, 8, props, kw_for(ctx, hermitian, N=2, max_blocks=2, max_size=2, max_params=3, min_params=3, offset_prob=0.0))
+    ctx.oracle("o_main_families", o_main.sweep, gen.NSPECIAL * ctx.n(1, 6), props, kw_for(ctx, hermitian, N=3, special_all=True))
     fprops = {"similarity": ["kept", "eliminated"], "unitary": ["UdU", "UUd", "adjoint", "Ht_herm"], "gauge": ["gauge"]}
     want = [x for p_ in props for x in fprops.get(p_, [])]
     if want:
